@@ -125,8 +125,9 @@ def parse_assumptions(log):
 
 
 class Ctx:
-    def __init__(self, pid, tier, seed):
+    def __init__(self, pid, tier, seed, report_as=None):
         self.pid, self.tier, self.seed = pid, tier, seed
+        self.report_as = report_as or pid      # property id printed in VIOLATION / KNOWN-FINDING lines
         self.t0 = time.time()
         self.rng = random.Random(seed)
         self.violations = []     # (sig, what, replay_path, found_input)
@@ -288,13 +289,52 @@ class Ctx:
               "violations": len(self.violations)}
         json.dump(ev, open(os.path.join(VERIF, "evidence", self.pid + ".json"), "w"), indent=1, default=str)
         for k in self.known_hits:
-            print("KNOWN-FINDING: property=%s %s" % (self.pid, k["what_fails"]))
+            print("KNOWN-FINDING: property=%s %s" % (self.report_as, k["what_fails"]))
         for sig, what, path, found in self.violations:
             print("# %s: %s" % (sig, what))
-            print("VIOLATION property=%s replay=%s%s" % (self.pid, path, "" if found else " no-failing-input-found"))
+            print("VIOLATION property=%s replay=%s%s" % (self.report_as, path, "" if found else " no-failing-input-found"))
         sys.stdout.flush()
-        return 1 if self.violations else 0
+        rc_sub = max([rc for _, rc in getattr(self, "sub_results", [])] or [0])
+        return 1 if (self.violations or rc_sub) else 0
 
 
 class BuildError(Exception):
     pass
+
+
+def run_sub(parent, subpid, module):
+    """run another check module as a part of `parent`'s property: its lines are printed under the parent's property id,
+    its evidence file (evidence/<subpid>.json) is folded into the parent's coverage by merge_sub_evidence"""
+    sub = Ctx(subpid, parent.tier, parent.seed, report_as=parent.report_as)
+    sub.replay = None
+    try:
+        rc = module.run(sub)
+    except BuildError as e:
+        sub.obligation("harness builds against /repo's working tree", False, str(e)[-1500:])
+        sub.violation("build:" + subpid, "harness/model build failed: the correspondence can no longer be checked",
+                      {"broken": "build", "detail": str(e)[-3000:]}, found_input=False)
+        rc = sub.finish({"evaluations": 0, "distinct_nontrivial": 0, "rule": "build failed", "samples": [str(e)[-500:]]})
+    parent.sub_results = getattr(parent, "sub_results", []) + [(subpid, rc)]
+    for n, ok, d in sub.obligations:
+        parent.obligation("[%s] %s" % (subpid, n), ok, d)
+    parent.assumption_report.update(sub.assumption_report)
+    for t in sub.trusted:
+        if t not in parent.trusted:
+            parent.trusted.append(t)
+    return rc
+
+
+def merge_sub_evidence(parent_cov, subpids):
+    parent_cov["sub_checks"] = {}
+    for sp in subpids:
+        try:
+            ev = json.load(open(os.path.join(VERIF, "evidence", sp + ".json")))
+        except Exception:
+            continue
+        c = ev["coverage"]
+        parent_cov["sub_checks"][sp] = {k: c[k] for k in c if k not in ("trusted_base", "obligation_list")}
+        parent_cov["evaluations"] = parent_cov.get("evaluations", 0) + c.get("evaluations", 0)
+        parent_cov["distinct_nontrivial"] = parent_cov.get("distinct_nontrivial", 0) + c.get("distinct_nontrivial", 0)
+        parent_cov.setdefault("samples", [])
+        parent_cov["samples"] += c.get("samples", [])[:2]
+    return parent_cov
